@@ -2736,12 +2736,20 @@ class Trimesh(Geometry3D):
         `self.face_normals` and `self.vertex_normals`.
         """
         with self._cache:
+            # get the normals we have before changing the faces
+            face_normals, vertex_normals = None, None
             if "face_normals" in self._cache:
-                self.face_normals = self._cache["face_normals"] * -1.0
+                face_normals = self._cache["face_normals"] * -1.0
             if "vertex_normals" in self._cache:
-                self.vertex_normals = self._cache["vertex_normals"] * -1.0
+                vertex_normals = self._cache["vertex_normals"] * -1.0
             # fliplr makes array non-contiguous so cache checks slow
             self.faces = np.ascontiguousarray(np.fliplr(self.faces))
+            # assign the negated normals after the faces were reversed:
+            # the setter checks them against the current winding
+            if face_normals is not None:
+                self.face_normals = face_normals
+            if vertex_normals is not None:
+                self.vertex_normals = vertex_normals
         # save our normals
         self._cache.clear(exclude=["face_normals", "vertex_normals"])
 
